@@ -289,6 +289,8 @@ class Interp:
                     # with the code (e.g. a new cached attribute) - undecided, never a violation
                     raise Unsupported("abstract %s object of the contract has no field '%s'" % (cls.name, name))
                 return self.lib.obj_getattr(v, name)
+            if name == '__dict__':
+                return v.fields
             if getattr(v, 'abstract', False) and name not in getattr(v, 'absent', ()):
                 raise Unsupported("abstract record of the contract has no field '%s'" % name)
             raise PyRaise(builtin_exc('AttributeError'), "record has no attribute '%s'" % name)
